@@ -115,7 +115,15 @@ func bbBuild(r *simkit.Run) *bbWorld {
 		return expelSet{expelled: x, expels: ops, fact: isaac.NewINITBallotFact(p0, w.B32, proposal, common.ExpelFactHashes(ops))}
 	}
 
-	if n >= 3 && r.Flag("expels") {
+	expelMode := 0 // 0 none, 1 one set, 2 two sets, 3 two sets voted in the partition pattern
+	if n >= 3 {
+		expelMode = r.Draw("expel_mode", 0, 3)
+		if n < 4 && expelMode > 1 {
+			expelMode = 1
+		}
+	}
+
+	if expelMode > 0 {
 		expelled = 1 + r.Choose(n-1)
 
 		first := mkExpelSet(expelled, pa)
@@ -123,7 +131,7 @@ func bbBuild(r *simkit.Run) *bbWorld {
 		expels, expelInit = first.expels, first.fact
 		expelFacts = common.ExpelFactHashes(expels)
 
-		if n >= 4 && r.Flag("two_expel_sets") {
+		if expelMode >= 2 {
 			y := 1 + r.Choose(n-2)
 			if y >= expelled {
 				y++
@@ -156,6 +164,8 @@ func bbBuild(r *simkit.Run) *bbWorld {
 		})
 	}
 
+	partitioned := expelMode == 3
+
 	stages := r.Draw("stage_points", 1, 4)
 	conflictDen := []int{0, 2, 4}[r.Draw("conflict_density", 0, 2)]
 
@@ -186,6 +196,16 @@ func bbBuild(r *simkit.Run) *bbWorld {
 				}
 
 				switch {
+				case partitioned && t == 0 && r.Chance(7, 8):
+					// the partition pattern: everybody but the node expelled by the first set votes the first set's fact,
+					// that node (alive on the other side) votes the second set's fact
+					es := sets[0]
+					if i == sets[0].expelled {
+						es = sets[1]
+					}
+
+					r.Probe("ballots_of_partition_pattern")
+					add(i, common.INITBallot(w.avp32, c.SignINIT(nd, es.fact), es.expels), fmt.Sprintf("node%d INIT h33r0 with expel of node%d", i, es.expelled))
 				case len(usable) > 0 && r.Chance(1, 2):
 					es := usable[r.Choose(len(usable))]
 					if len(sets) > 1 {
